@@ -27,7 +27,7 @@ theorem aliveTotalTransports_complete :
 
 /-- each listed witness is an in-domain (method, outcome) whose observed act is not allowed -/
 theorem freshWitnesses_bad :
-    ∀ w ∈ freshWitnesses, domain w.1 w.2.1 w.2.2 = true ∧ freshOK w.1 w.2.1 w.2.2 = false := by decide
+    ∀ w ∈ freshWitnesses, domain w.1 w.2.1 w.2.2 = true ∧ freshOK w.1 .c0 w.2.1 w.2.2 = false := by decide
 
 /-- the simulated transport of the harness is total (its "eof" fault raises ScrapliConnectionError) -/
 theorem sim_total : mapTotal .sim ∧ aliveTotal .sim := by decide
@@ -116,9 +116,9 @@ theorem dead_stays_dead (t : Transport) (ht : mapTotal t) (ha : aliveTotal t) (e
     closed) the first transport call of any operation raises ScrapliConnectionNotOpened — at once,
     whatever the environment — and `isalive()` is False. -/
 theorem never_opened_raises_not_opened (t : Transport) (ht : mapTotal t) (env : Env) (T : Nat) (hT : 0 < T)
-    (p : Program) (hp : p ≠ []) (lb : Option (Method × Outcome)) :
-    (run t env T p ⟨false, lb⟩).out = .raised .notOpened ∧ (run t env T p ⟨false, lb⟩).calls = 1
-    ∧ (run t env T p ⟨false, lb⟩).ticks = 0 ∧ isaliveNow t ⟨false, lb⟩ = .retFalse := by
+    (p : Program) (hp : p ≠ []) (lb : Option (Method × Outcome)) (c : Ctrl) :
+    (run t env T p ⟨false, lb, c⟩).out = .raised .notOpened ∧ (run t env T p ⟨false, lb, c⟩).calls = 1
+    ∧ (run t env T p ⟨false, lb, c⟩).ticks = 0 ∧ isaliveNow t ⟨false, lb, c⟩ = .retFalse := by
   have hg := good_of_total ht
   have hT' : ¬ T ≤ 0 := by omega
   refine ⟨?_, ?_, ?_, ?_⟩
@@ -129,7 +129,7 @@ theorem never_opened_raises_not_opened (t : Transport) (ht : mapTotal t) (env : 
        | nil => exact absurd rfl hp
        | cons s q =>
          cases s <;>
-           simp [run, exec, step, tAct, tNext, writeStep, readStep, hg.none_read, hg.none_write, Act.isRaise,
+           simp [run, exec, step, tAct, tNext, tNext0, ctrlNext, writeStep, readStep, hg.none_read, hg.none_write, Act.isRaise,
              Act.rk, Cfg.fail, hT'])
 
 /-! ### non-vacuity: a concrete operation on the (always total) simulated transport
@@ -143,7 +143,7 @@ def exEnv : Env := envRW [.data, .more, .data, .data, .more] .eof [] .data
 /-- the fault position: after 5 transitions the operation is inside its last read loop -/
 example : stepsTo .sim exEnv 9 5 ⟨exProg, {}, 0, 0⟩ = .inl ⟨[.r], {}, 5, 3⟩ := by decide
 
-example : mapTotal .sim ∧ InvSt .sim {} ∧ hasRead [.r] = true := ⟨sim_total.1, invSt_init _ _, rfl⟩
+example : mapTotal .sim ∧ InvSt .sim {} ∧ hasRead [.r] = true := ⟨sim_total.1, invSt_init _ _ _, rfl⟩
 
 example : InDomain .sim exEnv := by
   intro i
@@ -161,7 +161,13 @@ example : DeadFrom .sim 5 exEnv := by
   rw [getD_ge _ _ _ (by simp; omega)]; decide
 
 /-- and the conclusion, computed: ScrapliConnectionError at the first read after the drop, 3 ticks in -/
-example : run .sim exEnv 9 exProg = ⟨.raised .connError, ⟨true, some (.read, .eof)⟩, 6, 3⟩ := by decide
+example : run .sim exEnv 9 exProg = ⟨.raised .connError, ⟨true, some (.read, .eof), .c0⟩, 6, 3⟩ := by decide
+
+/-- a chunk that ends right after IAC leaves the Telnet control buffer pending; an EOF met in that state
+    is looked up in the rows observed for that state (Gen/LossMaps: errDevC / afterDev with ctrl = cIac) -/
+example : (tNext .asynctelnet {} .read .moreIac).ctrl = .cIac
+    ∧ (tNext .asynctelnet (tNext .asynctelnet {} .read .moreIac) .read .empty)
+        = ⟨true, some (.read, .empty), .cIac⟩ := by decide
 
 /-- the same drop while only empty reads arrive (Telnet-style EOF) is ended by the timeout backstop -/
 example : (run .sim (envRW [.data, .data, .data] .empty [] .data) 9 exProg).out = .raised .timeout
